@@ -110,6 +110,10 @@ func installProbes(ns types.EnvType, p *Probe) {
 	call.CallOverrideFN(ns, "raise!", func() (types.MalType, error) { return nil, errRaise })
 	call.CallOverrideFN(ns, "boom!", func() (types.MalType, error) { panic(errBoom) })
 	call.CallOverrideFN(ns, "boom-str!", func() (types.MalType, error) { panic("boom-str") })
+	// the same three as RAW host functions (types.Func set directly in the environment, the way nscore registers eval)
+	ns.Set(types.Symbol{Val: "rawraise!"}, types.Func{Fn: func(_ context.Context, a []types.MalType) (types.MalType, error) { return nil, errRaise }})
+	ns.Set(types.Symbol{Val: "rawboom!"}, types.Func{Fn: func(_ context.Context, a []types.MalType) (types.MalType, error) { panic(errBoom) }})
+	ns.Set(types.Symbol{Val: "rawboom-str!"}, types.Func{Fn: func(_ context.Context, a []types.MalType) (types.MalType, error) { panic("boom-str") }})
 }
 
 // Obs is what one evaluation did, in the outcome algebra of spec/Def.tla.
